@@ -227,6 +227,34 @@ def run(loader, R, tier):
         from selib import sym as _symc
         symmetry_rules(prog, _symc.Paths(prog), _Sub(R))
 
+    # ------------------------------------------------------------ R16.7
+    # floating literals: print_double adds a decimal marker so that the text
+    # reads back as a float; for inf/nan there is no numeral to mark, and
+    # "inf.0" is not in the parser's language
+    R.rule("R16.7", "print_double appends a decimal marker only to finite "
+                    "values")
+    pd = [f for f in prog.functions.values()
+          if f["n"] == "print_double" and f.get("body")
+          and "/printers/" in (f.get("file") or "")]
+    if not pd:
+        raise AnalysisBroken("print_double not found")
+    for f in pd:
+        appends = [n for n in walk(f["body"])
+                   if n.get("k") in ("op", "bin") and n.get("op") == "+="
+                   and any(y.get("k") == "lit" and str(y.get("v", ""))
+                           .startswith(".") for y in walk(n))]
+        finite = any(n.get("k") == "call" and n.get("n") in (
+            "isfinite", "isinf", "isnan") for n in walk(f["body"]))
+        R.instance("R16.7", short(f["qn"]), sample={
+            "decimal_marker_appends": len(appends),
+            "tests_finiteness": finite})
+        if appends and not finite:
+            R.violation(
+                "R16.7", short(f["qn"]), prog.loc(f, appends[0].get("l")),
+                "print_double appends a decimal marker without testing "
+                "that the value is finite: an infinite or NaN RealDouble "
+                "prints as `inf.0` / `nan.0`, which parse() rejects")
+
     # ------------------------------------------------------------ R16.5
     # A number that prints with a leading '-' must not have Atom precedence:
     # as the base of a power it would lose its parentheses ((-2)**x printing
